@@ -28,6 +28,7 @@ type foConfig struct {
 	UpdateTTL       time.Duration
 	BackendTTL      time.Duration
 	Observe         bool
+	SliceVals       bool // interface API only: values are of a type that == cannot compare (a slice holding the token)
 	BareExpired     bool // the (user-supplied) backend reports expiry as the bare ErrExpired sentinel, without the stale item
 }
 
@@ -38,6 +39,9 @@ func (c foConfig) String() string {
 	}
 	if c.BareExpired {
 		s += "/bare-expired"
+	}
+	if c.SliceVals {
+		s += "/slice-values"
 	}
 	return s
 }
@@ -273,14 +277,14 @@ func (r *foRun) beRead(ctx context.Context, key []byte) (interface{}, error) {
 		r.sched.yield(ctx, "be.read.post")
 		return nil, cache.ErrExpired
 	}
-	if s, ok := v.(string); ok {
+	if s, ok := tokOf(v); ok {
 		ev.Val = s
 	}
 	ev.ErrKind, _, _ = classifyErr(err)
 	if err != nil {
 		ev.Err = err.Error()
 		if sv, _, ok := be.Expired(err); ok {
-			ev.Val, _ = sv.(string)
+			ev.Val, _ = tokOf(sv)
 		}
 	}
 	r.record(ev)
@@ -296,7 +300,7 @@ func (r *foRun) beWrite(ctx context.Context, key []byte, v interface{}) error {
 	if ki < 0 {
 		ev.Info = "unknown key " + keyLabel(key)
 	}
-	if s, ok := v.(string); ok {
+	if s, ok := tokOf(v); ok {
 		ev.Val = s
 	} else if v == nil {
 		ev.Zero = true
@@ -409,7 +413,21 @@ func (s foStats) Set(ctx context.Context, name string, v float64, labels ...stri
 
 // ---- API adapters
 
-type foIface struct{ f *cache.Failover }
+type foIface struct {
+	f     *cache.Failover
+	slice bool
+}
+
+// tokOf extracts the harness token from a stored value (plain string, or the non-comparable slice form).
+func tokOf(v interface{}) (string, bool) {
+	switch x := v.(type) {
+	case string:
+		return x, true
+	case ncVal:
+		return x[0], true
+	}
+	return "", false
+}
 
 func (a foIface) Get(ctx context.Context, key []byte, build func(ctx context.Context) (string, error)) (string, bool, error) {
 	v, err := a.f.Get(ctx, key, func(ctx context.Context) (interface{}, error) {
@@ -420,12 +438,15 @@ func (a foIface) Get(ctx context.Context, key []byte, build func(ctx context.Con
 		if s == "" {
 			return nil, nil // the builder produced a nil value
 		}
+		if a.slice {
+			return ncVal{s}, nil
+		}
 		return s, nil
 	})
 	if v == nil {
 		return "", true, err
 	}
-	if s, ok := v.(string); ok {
+	if s, ok := tokOf(v); ok {
 		return s, s == "", err
 	}
 	return fmt.Sprintf("%#v", v), false, err
@@ -511,7 +532,7 @@ func newFoRun(cfg foConfig, keys [][]byte, sc *sched) *foRun {
 			SyncUpdate: cfg.SyncUpdate, SyncRead: cfg.SyncRead, MaxStaleness: cfg.MaxStaleness, FailHard: cfg.FailHard,
 			Logger: logger, Stats: st, ObserveMutability: cfg.Observe,
 		}.Use)
-		r.fo = foIface{f}
+		r.fo = foIface{f, cfg.SliceVals}
 	}
 	sc.lockedFn = r.fo.LockedKeys
 	r.script = func(int, int) buildOutcome { return buildOutcome{OK: true} }
@@ -538,7 +559,11 @@ func (r *foRun) prepopulate(rng *rand.Rand, key int, state string) string {
 	default:
 		panic("state " + state)
 	}
-	if err := r.be.Write(cache.WithTTL(bg, ttl, false), clone(r.keys[key]), tok); err != nil {
+	var stored interface{} = tok
+	if r.cfg.SliceVals {
+		stored = ncVal{tok}
+	}
+	if err := r.be.Write(cache.WithTTL(bg, ttl, false), clone(r.keys[key]), stored); err != nil {
 		panic(err)
 	}
 	r.mu.Lock()
